@@ -23,6 +23,9 @@ DEPENDS = [
                     "built-in, skip case and entry dispatch is translated alike - in the default build and in a build "
                     "with grammar-extras (where `e+` reaches the back-ends as its own node); grammar.pest uses no node "
                     "tags, so the known tag divergence of C02 is not an obligation here"}),
+    ("C12", {"only_rules": ["SETTER"],
+             "why": "the three parsers spend different numbers of calls on one text, so they agree only while no call "
+                    "limit is in force: no library code may set the process-wide limit"}),
     ("C05", {"why": "the fresh derivation and the VM run of grammar.pest both go through the optimizer: they denote the "
                     "grammar only if every pass preserves meaning (in the default build and with grammar-extras)"}),
 ]
